@@ -4,7 +4,7 @@ from core import World
 from gen import Gen, mode_line, cfg_line
 from suites import gen_history, emit_exec, exp_one_error_no_write, exp_same_fs, run_suite, mutate_call, conflated
 
-LEAN_MODULES = ['GoSnaps.Props.C02', 'GoSnaps.Props.C02World', 'GoSnaps.Props.Tie.Escape', 'GoSnaps.Props.Tie.Diff', 'GoSnaps.Props.Tie.SnapshotIO', 'GoSnaps.Props.Tie.Snapshot', 'GoSnaps.Props.Tie.Flows', 'GoSnaps.Props.Tie.DiffIO', 'GoSnaps.Props.Tie.EndToEnd']
+LEAN_MODULES = ['GoSnaps.Props.C02', 'GoSnaps.Props.C02World', 'GoSnaps.Props.C13Difflib', 'GoSnaps.Props.C13', 'GoSnaps.Props.Tie.Escape', 'GoSnaps.Props.Tie.Diff', 'GoSnaps.Props.Tie.SnapshotIO', 'GoSnaps.Props.Tie.Snapshot', 'GoSnaps.Props.Tie.Flows', 'GoSnaps.Props.Tie.DiffIO', 'GoSnaps.Props.Tie.EndToEnd']
 NOUPD = [(False, '', 'none'), (True, 'true', 'none'), (False, 'true', 'false'), (False, 'clean', 'none'), (True, '', 'true'), (False, 'other', 'none')]
 
 
@@ -195,6 +195,37 @@ def stale_worlds(r, n):
     return worlds
 
 
+def popular_worlds(r, n):
+    """long values (200-330 lines) in which some line is POPULAR (it makes up more than 1 % of the text: the
+    separator of a record dump, a closing brace): difflib's junk heuristic purges such lines from its index, so
+    the matcher takes other paths through them.  One popular line is replaced by a copy of its neighbour, a
+    record is dropped, or a line inside a record changes: every such change must be reported."""
+    worlds = []
+    for i in range(n):
+        nrec = r.randint(50, 80)
+        sep = r.choice([b'--', b'}', b'', b'---8<---'])
+        recs = [[b'name: item %03d' % k, b'value: %d' % r.randrange(10 ** 6)] + ([b'note: n%d' % k] if r.random() < 0.3 else []) + [sep] for k in range(nrec)]
+        a = [l for rec in recs for l in rec]
+        b = list(a)
+        pops = [k for k, l in enumerate(b) if l == sep and k > 0]
+        kind = r.choice(['pop->prev', 'pop->prev', 'drop-record', 'edit-value', 'pop->next'])
+        k = r.choice(pops[len(pops) // 4:])
+        if kind == 'pop->prev':
+            b[k] = b[k - 1]
+        elif kind == 'pop->next' and k + 1 < len(b):
+            b[k] = b[k + 1]
+        elif kind == 'drop-record':
+            del b[k + 1:k + 1 + len(recs[0])]
+        else:
+            b[k - 1] = b[k - 1] + b'0'
+        if a == b:
+            continue
+        ta, tb = b'\n'.join(a), b'\n'.join(b)
+        kindw = r.choice(['snap', 'snap', 'sasnap'])
+        worlds.append(exact_pair_world('c02-popular-%s-%d' % (kind, i), kindw, ta, tb, NOUPD[i % len(NOUPD)], oracle='change-in-a-long-text-with-popular-lines-reported'))
+    return worlds
+
+
 def known(w, p):
     if p['kind'] != 'expect':
         return None
@@ -243,6 +274,7 @@ def run(ctx):
                     w.expect[j] = ('fixed-pair-reported', suites.exp_one_error_no_write)
             worlds.append(w)
     worlds += collision_worlds(Gen(ctx.seed * 1000003 + 202).r, ctx.tier == 'thorough')
+    worlds += popular_worlds(Gen(ctx.seed * 1000003 + 2003).r, 12 if ctx.tier == 'quick' else 150)
     worlds += stale_worlds(Gen(ctx.seed * 1000003 + 2002).r, 40 if ctx.tier == 'quick' else 600)
     run_suite(ctx, 'match.mismatch', worlds, known=known)
     # colours on: the report must still be non-empty (no model: ANSI layout is not modelled)
@@ -254,4 +286,27 @@ def run(ctx):
         cw.append(w)
     cw += collision_worlds(Gen(ctx.seed * 1000003 + 222).r, ctx.tier == 'thorough')
     run_suite(ctx, 'match.mismatch.colour', cw, env={'NO_COLOR': ''}, known=known, use_model=False)
+    # the comparison itself: the diff engine on long sequences with popular elements (the suite of C13, whose
+    # theorems `report_empty_iff` this property rests on)
+    import importlib.util, os, random
+    sp = importlib.util.spec_from_file_location('C13', os.path.join(os.path.dirname(os.path.abspath(__file__)), 'C13.py'))
+    c13 = importlib.util.module_from_spec(sp)
+    sp.loader.exec_module(c13)
+    binary = core.build_pkg_harness(ctx, 'internal/difflib', 'difflib', 'difflib.test')
+    if binary:
+        rnd = random.Random(ctx.seed * 1000003 + 213)
+        longp = []
+        for _ in range(40 if ctx.tier == 'quick' else 400):
+            n = rnd.randint(195, 330)
+            alpha = rnd.choice(['abc', 'abcdef', 'abcdefghijklmnopqrstuvwxyz'])
+            a = ''.join(rnd.choice(alpha + 'aaaa') for _ in range(n))
+            b = list(a)
+            for _ in range(rnd.randint(1, 4)):
+                i = rnd.randrange(1, len(b))
+                if rnd.random() < 0.5:
+                    b[i] = b[i - 1]          # a (possibly popular) element replaced by a copy of its neighbour
+                else:
+                    b[i:i + rnd.randint(0, 3)] = [rnd.choice(alpha) for _ in range(rnd.randint(0, 3))]
+            longp.append((a, ''.join(b)))
+        c13.difflib_suite(ctx, binary, 'difflib.long-popular', longp)
     findings.report(ctx, 'C02')
